@@ -16,17 +16,20 @@ TdSet(e) == GRng(e.tds)
 UseOf(u) == [scope |-> u.scope, ref |-> u.ref, pat |-> u.pat, own |-> u.own]
 \* reason codes: 1 error presence, 2 kind, 3 units, 4 default, 5 patterns, 6 fraction-digits, 7 enum / bit names,
 \*               8 path, 9 union members, 10 the binding is not the nearest scope (specification sanity)
+\* a typedef may state the empty string as its units: stated (the nearest statement wins), and what is observed is ""
+Shown(x) == IF x = "EMPTY" THEN "" ELSE x
+ShownM(ms) == {[kind |-> m.kind, units |-> Shown(m.units)] : m \in ms}
 LeafReason(K, tds, u) ==
   LET r == GResolve(K, tds, UseOf(u))  o == u.obs IN
   IF ~GLexical(K, tds, u.scope, u.ref) THEN 10
   ELSE IF o.kind # r.kind THEN 2
-  ELSE IF o.units # r.units THEN 3
+  ELSE IF o.units # Shown(r.units) THEN 3
   ELSE IF o.dflt # r.dflt \/ o.hasdflt # (r.dflt # "") \/ o.dvals # (IF r.dflt = "" THEN <<>> ELSE <<r.dflt>>) THEN 4
   ELSE IF r.kind = "string" /\ o.pats # r.pats THEN 5
   ELSE IF o.fd # r.fd THEN 6
   ELSE IF GRng(o.enums) # r.enums \/ GRng(o.bits) # r.bits THEN 7
   ELSE IF o.path # r.path THEN 8
-  ELSE IF GRng(o.members) # GRng(r.members) THEN 9      \* as sets: equal members are listed once, and Types.tla pins the order
+  ELSE IF GRng(o.members) # ShownM(GRng(r.members)) THEN 9      \* as sets: equal members are listed once, and Types.tla pins the order
   ELSE 0
 Reason(e) ==
   LET K == [scopes |-> e.scopes, roots |-> e.roots]
